@@ -6,9 +6,11 @@ Actors and where their steps come from
 * the instance token at the host (flow.Start loop): `activate` (calls `harness.NextAction`; the FIRST call starts the
   listener flows, `harness.once`), `hostTake` (receives the activity's action from `out` and continues on the
   normal outgoing flow);
-* the harness run loop + its forwarder goroutine: `harnessTake` (`active := 1`, `activity.NextAction`: the task's
-  run loop is started by the CAS 0→1 and the next-action message is queued), `forward` (`out <- rsp`),
-  `clear` (`active := 0`, a separate statement after the send);
+* the harness run loop + its forwarder goroutine: `harnessActive` (`active := 1`), `harnessCall`
+  (`activity.NextAction`: the activity's run loop is started by the CAS 0→1 and the next-action message is queued —
+  a SEPARATE step: a tracer send, and for a sub-process the start of its monitor, sit between the two, and an
+  interrupting listener that fires in between gets its cancel message into the activity's inbox FIRST),
+  `forward` (`out <- rsp`), `clear` (`active := 0`, a separate statement after the send);
 * the task / sub-process run loop: `taskTake` handles the head of its inbox: a next-action message spawns the request
   goroutine; a cancel message is answered `false` while `active.Load() > 1` (a request goroutine is counted), else
   `true` and the run loop EXITS;
@@ -26,8 +28,7 @@ Every label is one atomic step; which enabled label is taken next is the schedul
 labels and theorems quantify over all of them.
 
 Abstractions (stated, not hidden): one activation of the host (no loop back into it: `activate` is enabled once);
-`harnessTake` is atomic (the two statements `active := 1` and `activity.NextAction` are not separated); channel
-capacities are not modelled (C11); each boundary event listens to its own event; a forwarded event that the catch
+channel capacities are not modelled (C11); each boundary event listens to its own event; a forwarded event that the catch
 event sees before it was activated is dropped (in the code it sits in the inbox in FRONT of the next-action
 message, so it is looked at first, not activated, and dropped).
 
@@ -79,7 +80,8 @@ deriving DecidableEq, Repr
 inductive Req where
   | none       -- token not yet at the host
   | atHarness  -- next-action message queued at the harness
-  | atTask     -- harness active, message queued at the activity
+  | calling    -- harness active (`active = 1`), `activity.NextAction` not yet called
+  | atTask     -- message queued at the activity
   | spawned    -- request goroutine spawned, not yet counted in `active`
   | pending    -- waits for its answer (TaskTrace visible)
   | answered   -- answer given, action not yet on the response channel
@@ -87,6 +89,10 @@ inductive Req where
   | forwarded  -- action on the harness's `out` channel
   | done       -- the token took it: normal flow continued
 deriving DecidableEq, Repr
+
+def Req.rank : Req → Nat
+  | .none => 0 | .atHarness => 1 | .calling => 2 | .atTask => 3 | .spawned => 4 | .pending => 5 | .answered => 6
+  | .responded => 7 | .forwarded => 8 | .done => 9
 
 inductive TMsg where
   | next
@@ -122,7 +128,7 @@ deriving DecidableEq, Repr
 
 inductive Label where
   | activate | deliver (i : Nat) | answer
-  | harnessTake | taskTake | reqStart | respond | decrement | forward | clear | hostTake
+  | harnessActive | harnessCall | taskTake | reqStart | respond | decrement | forward | clear | hostTake
   | arm (i : Nat) | catchTake (i : Nat) | transform (i : Nat) | move (i : Nat)
 deriving DecidableEq, Repr
 
@@ -143,9 +149,13 @@ def step (cfg : Cfg) (s : St) : Label → Option St
     match s.req with
     | .none => some { s with req := .atHarness, ls := s.ls.map startListener }
     | _ => none
-  | .harnessTake =>
+  | .harnessActive =>
     match s.req with
-    | .atHarness => some { s with req := .atTask, hActive := true, tRun := true, tq := s.tq ++ [.next] }
+    | .atHarness => some { s with req := .calling, hActive := true }
+    | _ => none
+  | .harnessCall =>
+    match s.req with
+    | .calling => some { s with req := .atTask, tRun := true, tq := s.tq ++ [.next] }
     | _ => none
   | .taskTake =>
     if s.tRun then
@@ -240,7 +250,7 @@ def Listener.quiet (l : Listener) : Bool :=
 /-- no internal label is enabled (`quiet_iff` in Lemmas/Boundary.lean) -/
 def quiet (s : St) : Bool :=
   (match s.req with
-   | .atHarness | .spawned | .answered | .responded | .forwarded => false
+   | .atHarness | .calling | .spawned | .answered | .responded | .forwarded => false
    | _ => true)
   && !(s.tRun && !s.tq.isEmpty)
   && !(s.counted && (match s.req with | .responded | .forwarded | .done => true | _ => false))
@@ -264,7 +274,7 @@ def canComplete (cfg : Cfg) (s : St) : Bool :=
 /-! ### exploration (used by the driver and by `decide`d witnesses) -/
 
 def internalLabels (s : St) : List Label :=
-  [.harnessTake, .taskTake, .reqStart, .respond, .decrement, .forward, .clear, .hostTake]
+  [.harnessActive, .harnessCall, .taskTake, .reqStart, .respond, .decrement, .forward, .clear, .hostTake]
   ++ (List.range s.ls.length).flatMap (fun i => [.arm i, .catchTake i, .transform i, .move i])
 
 /-- successors by one internal step, labels for which `blocked` holds excluded (a goroutine parked by the
